@@ -13,6 +13,7 @@ def Inv (s : St) : Prop :=
 /-- the repaired code: every exit goes through the per-asset subtraction (`fixed = true`). -/
 def opRepaired : Op → Prop
   | .exitOut f _ _ _ => f = true
+  | .failedConversion f _ _ _ _ _ => f = true
   | _ => True
 
 theorem sumBook_add (b : FMap PD) (p : Nat) (d e : String) (x : Int) :
@@ -74,6 +75,11 @@ theorem step_inv {s s' : St} {op : Op} (hi : Inv s) (hr : opRepaired op) (h : st
       · rename_i hk; subst hk; omega
       · omega
 
+  | failedConversion f p dIn x dOut y =>
+    simp only [opRepaired] at hr; subst hr
+    simp only [step, failedConversion, if_true, Except.ok.injEq] at h; subst h
+    exact ⟨h1, h2, h3⟩
+
 /-- an atomic macro-op (a message handler: any sequence of primitives, all-or-nothing) preserves it. -/
 theorem atomic_inv {s s' : St} (ops : List Op) (hi : Inv s) (hr : ∀ op ∈ ops, opRepaired op)
     (h : runAtomic s ops = .ok s') : Inv s' := by
@@ -119,6 +125,15 @@ theorem exit_zero_witness :
     let s0 : St := { held := [((3, "uusdc"), 1050)], book := [((3, "uusdc"), 1050)], liq := [("uusdc", 1050)] }
     ∃ s1, step s0 (.exitOut false 3 "uusdc" 1050) = .ok s1 ∧ s1.held.get (3, "uusdc") = 0 ∧ s1.book.get (3, "uusdc") = 1050 :=
   ⟨_, rfl, by decide, by decide⟩
+
+/-- WITNESS (before 78eb247): a swap whose fee conversion failed after applying itself to the shared in-memory pool — the saved book
+holds 6,033,848,107 uatom that no transfer backs (history seed 1104, block 122: a sale of half a reserve into an oracle pool) -/
+theorem failed_conversion_witness :
+    let s0 : St := run {} [[.tokenIn 3 "uatom" 1000000, .tokenIn 3 "uusdc" 5000000]]
+    (∀ k ∈ [((3 : Nat), "uatom"), (3, "uusdc")], heldEqBookB s0 k = true) ∧
+    heldEqBookB (stepTx s0 [.failedConversion false 3 "uatom" 60 "uusdc" 300]) (3, "uatom") = false ∧
+    stepTx s0 [.failedConversion true 3 "uatom" 60 "uusdc" 300] = s0 := by
+  refine ⟨by decide, by decide, by rfl⟩
 
 /-- the repaired exit refuses that input. -/
 theorem exit_zero_refused :
